@@ -61,3 +61,39 @@ Example C10_text_example :
 Proof. repeat split; vm_compute; reflexivity. Qed.
 Print Assumptions C10_prefixes_example.
 Print Assumptions C10_text_example.
+
+(* ---- (Extra10.v) the UTF-8 guarantee for from_slice as a whole: also what the TEXT FALLBACK returns has well-formed
+   UTF-8 strings and keys (the grammar's string production carries utf8_valid of the decoded text; keys likewise) *)
+From JB Require Import Extra10.
+Theorem C10_text_reader_strings_are_utf8 : forall bs v, parse_value bs = Ok v -> strings_utf8 v = true.
+Proof. exact parse_value_utf8. Qed.
+Print Assumptions C10_text_reader_strings_are_utf8.
+
+Theorem C10_from_slice_strings_are_utf8 : forall bs v, from_slice bs = Ok v -> strings_utf8 v = true.
+Proof. exact from_slice_utf8. Qed.
+Print Assumptions C10_from_slice_strings_are_utf8.
+
+(* the recursion fuel of the decoder model (S (length bs)) is never the reason for an answer, whatever the bytes: every
+   nesting level reads a 4-byte header further on and costs two units, so half the length plus one is always enough *)
+Theorem C10_decoder_fuel_is_never_decisive : forall bs, parse_jsonb bs <> Err EFuel.
+Proof. exact parse_jsonb_not_fuel. Qed.
+Print Assumptions C10_decoder_fuel_is_never_decisive.
+
+Theorem C10_decoder_fuel_bound : forall fuel,
+  (forall w bs, (length bs + 3 <= 2 * fuel)%nat -> decode_scalar fuel w bs <> Err EFuel) /\
+  (forall bs, (length bs + 1 <= 2 * fuel)%nat -> decode_jsonb fuel bs <> Err EFuel).
+Proof. exact decode_fuel_enough. Qed.
+Print Assumptions C10_decoder_fuel_bound.
+
+(* C10_proper_prefixes_are_rejected, sharpened: the rejection is a genuine error of the decoder, not the model's fuel *)
+Theorem C10_proper_prefixes_are_rejected_by_a_real_error : forall v p, wfb v = true -> proper_prefix p (enc v) ->
+  (exists e, parse_jsonb p = Err e /\ e <> EFuel) /\ from_slice p = Err EOther.
+Proof. exact prefix_rejected_not_fuel. Qed.
+Print Assumptions C10_proper_prefixes_are_rejected_by_a_real_error.
+
+(* the same for the text fallback and hence for from_slice as a whole: on no input is the model's fuel the reason for
+   the answer (every value consumes a byte, every escape consumes a byte) *)
+Theorem C10_from_slice_fuel_is_never_decisive :
+  (forall bs, parse_value bs <> Err EFuel) /\ (forall bs, from_slice bs <> Err EFuel).
+Proof. split; [exact parse_value_not_fuel|exact from_slice_not_fuel]. Qed.
+Print Assumptions C10_from_slice_fuel_is_never_decisive.
